@@ -29,3 +29,134 @@ pub fn defs(o: &Opts) -> i32 {
     w.flush().unwrap();
     0
 }
+
+// ---------------------------------------------------------------------------------------------
+// whole-registry dumps after loading arbitrary definition text
+
+use crate::evalsess::{fmt_numeric};
+use rink_core::types::Dimensionality;
+use rink_core::Context;
+
+fn dim_hex(d: &Dimensionality) -> String {
+    if d.is_dimensionless() { return "-".into(); }
+    d.iter().map(|(k, p)| format!("{}:{}", hex(k.as_str()), p)).collect::<Vec<_>>().join(",")
+}
+
+/// error messages of `Context::load` mapped to the tags the model emits
+pub fn error_tag(msg: &str) -> String {
+    let m = msg.trim();
+    let after = |p: &str| m.strip_prefix(p).map(|s| s.to_string());
+    if let Some(r) = after("warning: multiple ") {
+        let (ns, name) = r.split_once(" named ").unwrap_or((&r, ""));
+        let ns = match ns { "prefixes" => "prefix", "quantities" => "quantity", "units" => "unit", _ => "category" };
+        return format!("multiple:{}:{}", ns, name);
+    }
+    if let Some(r) = after("Unit ") {
+        if let Some(id) = r.strip_suffix(" has a dependency cycle") { return format!("cycle:{}", id_tag(id)); }
+    }
+    if m.ends_with(" is not a number") { return format!("malformed:{}", id_tag(m.trim_end_matches(" is not a number"))); }
+    if let Some((id, _)) = m.split_once(" is malformed: ") {
+        if let Some(n) = id.strip_prefix("Substance ") { return format!("substance-malformed:{}", n); }
+        return format!("malformed:{}", id_tag(id));
+    }
+    if let Some(r) = after("Prefix ") { return format!("prefix:{}", r.split(':').next().unwrap_or("")); }
+    if let Some(r) = after("Warning: Conflicting quantities ") { let (a, b) = r.split_once(" and ").unwrap_or((&r, "")); return format!("quantity-conflict:{}:{}", a, b); }
+    if let Some(r) = after("Quantity ") { return format!("quantity:{}", r.split(':').next().unwrap_or("")); }
+    if let Some(r) = after("Warning: Conflicting substances for ") { return format!("substance-conflict:{}", id_tag(&r)); }
+    if let Some(r) = after("Warning: conflicting properties for ") { let (c, n) = r.split_once(" of ").unwrap_or((&r, "")); return format!("property-conflict:{}:{}", n, c); }
+    if let Some(r) = after("Def ") { return format!("def-error:{}", r.split(':').next().unwrap_or("")); }
+    if let Some(r) = after("Doc conflict for ") { return format!("doc-conflict:{}", id_tag(&r)); }
+    if let Some(r) = after("Category conflict: ") { return format!("category-conflict:{}", id_tag(r.split(" is in both").next().unwrap_or(""))); }
+    format!("other:{}", m)
+}
+
+fn id_tag(id: &str) -> String {
+    if let Some(n) = id.strip_prefix("unit ") { return format!("unit:{}", n); }
+    if let Some(n) = id.strip_prefix("prefix ") { return format!("prefix:{}", n.trim_end_matches('-')); }
+    if let Some(n) = id.strip_prefix("quantity ") { return format!("quantity:{}", n); }
+    if let Some(n) = id.strip_prefix("category ") { return format!("category:{}", n); }
+    id.to_string()
+}
+
+pub fn dump_registry(ctx: &Context, errors: &[String], w: &mut impl Write) {
+    let r = &ctx.registry;
+    for b in &r.base_units { writeln!(w, "base {}", hex(b.as_str())).unwrap(); }
+    for (n, v) in &r.units { writeln!(w, "unit {} {} {}", hex(n), fmt_numeric(&v.value), dim_hex(&v.unit)).unwrap(); }
+    for (n, v) in &r.prefixes { writeln!(w, "prefix {} {}", hex(n), fmt_numeric(v)).unwrap(); }
+    for (n, e) in &r.definitions { writeln!(w, "defexpr {} {}", hex(n), fmt_e(e)).unwrap(); }
+    for (s, l) in &r.base_unit_long_names { writeln!(w, "long {} {}", hex(s), hex(l)).unwrap(); }
+    for (d, n) in &r.quantities { writeln!(w, "quantity {} {}", dim_hex(d), hex(n)).unwrap(); }
+    for (d, n) in &r.decomposition_units { writeln!(w, "decomp {} {}", dim_hex(d), hex(n)).unwrap(); }
+    for (n, s) in &r.substances {
+        writeln!(w, "subst {} {} {} {}", hex(n), hex(&s.properties.name), fmt_numeric(&s.amount.value), dim_hex(&s.amount.unit)).unwrap();
+        for (pn, p) in &s.properties.properties {
+            writeln!(w, "prop {} {} {} {} {} {} {} {}", hex(n), hex(pn), fmt_numeric(&p.input.value), dim_hex(&p.input.unit), hex(&p.input_name),
+                fmt_numeric(&p.output.value), dim_hex(&p.output.unit), hex(&p.output_name)).unwrap();
+        }
+    }
+    for (sym, n) in &r.substance_symbols { writeln!(w, "symbol {} {}", hex(sym), hex(n)).unwrap(); }
+    for (n, c) in &r.categories { writeln!(w, "category {} {}", hex(n), hex(c)).unwrap(); }
+    for (c, n) in &r.category_names { writeln!(w, "catname {} {}", hex(c), hex(n)).unwrap(); }
+    for (n, d) in &r.docs { writeln!(w, "doc {} {}", hex(n), hex(&d.to_string())).unwrap(); }
+    let mut tags: Vec<String> = errors.iter().map(|e| error_tag(e)).collect();
+    tags.sort();
+    for t in tags { writeln!(w, "error {}", hex(&t)).unwrap(); }
+}
+
+/// loads the given files in order into a fresh context; `Err` text lines become error tags
+pub fn load_files(units: &[String], currency: Option<(String, String)>) -> (Context, Vec<String>) {
+    let mut ctx = Context::new();
+    let mut errors = vec![];
+    for f in units {
+        let text = std::fs::read_to_string(f).expect("read units file");
+        if let Err(e) = ctx.load_definitions(&text) { errors.extend(e.lines().skip(1).map(|l| l.trim().to_string())); }
+    }
+    if let Some((json, cu)) = currency {
+        let j = std::fs::read_to_string(&json).expect("read json");
+        let c = std::fs::read_to_string(&cu).expect("read currency units");
+        if let Err(e) = ctx.load_currency(&j, &c) {
+            if e.starts_with("Multiple errors") { errors.extend(e.lines().skip(1).map(|l| l.trim().to_string())); } else { errors.push(format!("json:{}", e)); }
+        }
+    }
+    (ctx, errors)
+}
+
+/// `rkh loaddump --out DIR file.units ... [--currency=JSON,UNITS]` → DIR/registry.impl.dump
+pub fn loaddump(o: &Opts) -> i32 {
+    let files: Vec<String> = o.extra.iter().filter(|x| !x.starts_with("--")).cloned().collect();
+    let cur = o.extra.iter().find_map(|x| x.strip_prefix("--currency=")).map(|s| { let (a, b) = s.split_once(',').unwrap(); (a.to_string(), b.to_string()) });
+    let res = std::panic::catch_unwind(|| load_files(&files, cur));
+    let mut w = o.writer("registry.impl.dump");
+    match res {
+        Ok((ctx, errors)) => dump_registry(&ctx, &errors, &mut w),
+        Err(_) => writeln!(w, "panic").unwrap(),
+    }
+    w.flush().unwrap();
+    0
+}
+
+/// converts currency JSON (a list of DefEntry) into the line form the Lean driver reads:
+/// expression *texts* are passed on, so the model parses them itself
+pub fn jsondefs(o: &Opts) -> i32 {
+    let text = std::fs::read_to_string(o.input.as_ref().expect("--input")).expect("read");
+    let v: serde_json::Value = match serde_json::from_str(&text) { Ok(v) => v, Err(_) => { println!("jsonerror"); return 0; } };
+    let arr = match v.as_array() { Some(a) => a, None => { println!("jsonerror"); return 0; } };
+    let s = |x: &serde_json::Value| x.as_str().map(|t| hex(t)).unwrap_or_else(|| "-".into());
+    for e in arr {
+        let head = format!("jdef {} doc={} cat={}", s(&e["name"]), s(&e["doc"]), s(&e["category"]));
+        match e["type"].as_str().unwrap_or("") {
+            "baseUnit" => println!("{} base {}", head, s(&e["longName"])),
+            "prefix" => println!("{} prefix {} {}", head, e["isLong"].as_bool().unwrap_or(false) as u8, s(&e["expr"])),
+            "unit" => println!("{} unit {}", head, s(&e["expr"])),
+            "quantity" => println!("{} quantity {}", head, s(&e["expr"])),
+            "substance" => {
+                let props: Vec<String> = e["properties"].as_array().map(|a| a.iter().map(|p| format!("{} {} {} doc={} IN {} OUT {}", s(&p["name"]), s(&p["inputName"]), s(&p["outputName"]), s(&p["doc"]), s(&p["input"]), s(&p["output"]))).collect()).unwrap_or_default();
+                println!("{} substance {} {}", head, s(&e["symbol"]), props.join(" ; "));
+            }
+            "category" => println!("{} category {}", head, s(&e["displayName"])),
+            "error" => println!("{} error {}", head, s(&e["message"])),
+            _ => println!("jsonerror"),
+        }
+    }
+    0
+}
